@@ -49,6 +49,21 @@ func C04(c *Ctx) int {
 	if err := c.TokenGameRound(fs, loops, RoundOpts{Label: "reentry", MaxSteps: 20, Simulate: sim}); err != nil {
 		c.Infraf("%v", err)
 	}
-	c.Extra["programs"] = len(ps) + len(loops)
+	// 3..5 tokens reaching the gateway at the same time over one incoming flow
+	var bursts []*prog.Program
+	gen.MergedArrival, gen.BurstArrival = true, true
+	for k := 1; k <= 2; k++ {
+		for dpos := -1; dpos <= k; dpos++ {
+			for tokens := 3; tokens <= 5; tokens++ {
+				bursts = append(bursts, gen.GatewayTable("xor", k, dpos, tokens, -1))
+			}
+		}
+	}
+	gen.MergedArrival, gen.BurstArrival = false, false
+	if err := c.TokenGameRound(fs, bursts, RoundOpts{Label: "burst", MaxSteps: 8, Simulate: 200, MaxPerProg: 8,
+		Job: JobOpts{Perturb: 9, HoldPoints: []string{"xor.report", "flow.action", "flow.flowtrace", "tracer.take"}}}); err != nil {
+		c.Infraf("%v", err)
+	}
+	c.Extra["programs"] = len(ps) + len(loops) + len(bursts)
 	return c.Finish("model_checking", "exclusive gateways with 1..4 conditional flows, default absent or at every list position, 1..3 tokens arriving concurrently; TLC enumerates every truth assignment (one decision task writes all condition variables) and every answer order; each schedule replayed on the real engine, validated by TokenGameTrace (branch task requested, no-flow error naming the gateway, independent pass-through)", !c.Quick(), fs)
 }
